@@ -393,9 +393,9 @@ func c20Res(s *c20sys) string {
 
 func TestVerifC20(t *testing.T) {
 	e := vr.GetEnv()
-	p, pt, tt := 3, 1, 1
+	p, pt, tt, p2 := 2, 0, 1, 2
 	if e.Tier == "thorough" {
-		p, pt, tt = 4, 2, 1
+		p, pt, tt, p2 = 4, 1, 1, 3
 	}
-	vr.RunScenarios("C20", []vr.Scenario{c20Scenario("fallback", p, 0), c20Scenario("fallback-earlytimers", pt, tt), c20TwoCalls("fallback-2calls", p-1)})
+	vr.RunScenarios("C20", []vr.Scenario{c20Scenario("fallback", p, 0), c20Scenario("fallback-earlytimers", pt, tt), c20TwoCalls("fallback-2calls", p2)})
 }
